@@ -1707,7 +1707,7 @@ Proof.
       - intros c _. rewrite SO1. destruct (Nat.eq_dec oc c) as [->|N]; [now rewrite ch_setc_eq|now rewrite ch_setc_neq]. }
     rewrite E2, POc, SO1, ch_setc_eq. reflexivity. }
   rewrite CV.
-  set (h3 := set_flags h2 X false (n_failed (nd h2 X))).
+  set (h3 := set_flags h2 X false (n_failed (nd h X))).
   assert (CH3 : forall c, In c (n_chans (nd h X)) -> ch h3 c = ch h c).
   { intros c Ic. unfold h3, set_flags. rewrite ch_setn, SO1.
     assert (oc <> c) by (specialize (Fresh1 oc In1); specialize (LC c Ic); lia).
@@ -1785,8 +1785,8 @@ Proof.
   set (h2 := set_flags h1 X true false).
   destruct (dump DFUEL h2 X) as [sd|] eqn:ED; [|exfalso; apply Du; exact ED].
   assert (S1 : step mode X (mkC h [] []) ORun = log (mkC h [] []) h2 [JPick X sd] "Future").
-  { unfold step, submit. cbn [c_heap c_jobs]. rewrite Fe. rewrite !N1, Ru, Fa.
-    unfold inputs_ready. rewrite IV. cbn [orb negb].
+  { unfold step, submit, submit_with. cbn [c_heap c_jobs]. rewrite Fe. rewrite !N1, Ru, Fa.
+    unfold inputs_ready. rewrite IV. cbn [orb negb andb].
     assert (HE : has_exec (n_exec (nd h X)) = true) by (destruct (n_exec (nd h X)); [discriminate|reflexivity|reflexivity]).
     rewrite HE, Cr. fold h2. rewrite ED. reflexivity. }
   rewrite S1.
@@ -1946,4 +1946,53 @@ Lemma relink_keeps_shown :
   chan_val (c_heap s) 1 PIn "x" = Some 1%Z /\
   match find_chan (c_heap s) 1 PIn "x" with Some c => c_recv (ch (c_heap s) c) | None => None end
     = find_chan (c_heap s) 2 PIn "x".
+Proof. vm_compute. repeat split; reflexivity. Qed.
+
+(* ------------------------------------------------------------------ out again with the failed flag still set *)
+(* execute() / run(check_readiness=False) skip the readiness gate -- the only place that looks at `failed`: the node
+   goes out with running AND failed set.  The lock looks at `running` alone. *)
+Theorem gateless_submit_goes_out mode X s sd (fetching : bool) h1 :
+  (if fetching then fetch (c_heap s) X else Some (c_heap s)) = Some h1 ->
+  crosses (n_exec (nd h1 X)) = true ->
+  dump DFUEL (set_flags h1 X true (n_failed (nd h1 X))) X = Some sd ->
+  let s1 := step mode X s (if fetching then ORunX else OExec) in
+  n_running (nd (c_heap s1) X) = true /\ n_failed (nd (c_heap s1) X) = n_failed (nd h1 X) /\
+  c_jobs s1 = c_jobs s ++ [JPick X sd].
+Proof.
+  intros F Cr D.
+  assert (HE : has_exec (n_exec (nd h1 X)) = true) by (destruct (n_exec (nd h1 X)); [discriminate|reflexivity|reflexivity]).
+  destruct fetching.
+  - cbn [step]. unfold submit_with. rewrite F. cbn [andb]. rewrite HE, Cr, D. cbn [c_heap c_jobs log].
+    split; [apply set_flags_running|split; [unfold set_flags; now rewrite nd_setn_eq|reflexivity]].
+  - injection F as <-. cbn [step]. unfold submit_with. cbn [andb]. rewrite HE, Cr, D. cbn [c_heap c_jobs log].
+    split; [apply set_flags_running|split; [unfold set_flags; now rewrite nd_setn_eq|reflexivity]].
+Qed.
+
+(* reflected from the real graph  wf{ n0 = Chk1(tag 0, k 3, a 3) on the pickle-boundary executor } *)
+Definition demo_chk : heap :=
+  (mkHeap [(0%nat, mkNode "wf"%string KWf None None ExNone false false [1%nat] [0%nat; 1%nat; 2%nat; 3%nat] [1%nat]);
+   (1%nat, mkNode "n0"%string (KLeaf FChk) (Some 0%nat) None (ExInst 1%nat) false false [] [4%nat; 5%nat; 6%nat; 7%nat; 8%nat; 9%nat; 10%nat; 11%nat] [])] [(0%nat, mkChan 0%nat "run"%string SIn [] None None);
+   (1%nat, mkChan 0%nat "accumulate_and_run"%string SIn [] None None);
+   (2%nat, mkChan 0%nat "ran"%string SOut [] None None);
+   (3%nat, mkChan 0%nat "failed"%string SOut [] None None);
+   (4%nat, mkChan 1%nat "tag"%string PIn [] (Some (0)%Z) None);
+   (5%nat, mkChan 1%nat "k"%string PIn [] (Some (3)%Z) None);
+   (6%nat, mkChan 1%nat "a"%string PIn [] (Some (3)%Z) None);
+   (7%nat, mkChan 1%nat "y"%string POut [] None None);
+   (8%nat, mkChan 1%nat "run"%string SIn [] None None);
+   (9%nat, mkChan 1%nat "accumulate_and_run"%string SIn [] None None);
+   (10%nat, mkChan 1%nat "ran"%string SOut [] None None);
+   (11%nat, mkChan 1%nat "failed"%string SOut [] None None)] 12%nat []).
+
+(* fail on the executor (a = -2), repair (a = 9), execute(): out with failed still set; assignments bounce and
+   change nothing; the delivered output belongs to a = 9; the failed flag is still set afterwards (sticky) *)
+Lemma failed_then_out_example :
+  let s := run_ops AsWritten 1 demo_chk [OSet "a" (-2)%Z; ORun; OComplete; OSet "a" 9%Z; OExec] in
+  n_running (nd (c_heap s) 1) = true /\ n_failed (nd (c_heap s) 1) = true /\
+  let s' := step AsWritten 1 (step AsWritten 1 s (OSet "a" 25%Z)) (OSet "k" 20%Z) in
+  c_log s' = [OS "ok"; OS "Future"; OS "done"; OS "ok"; OS "Future"; OS "RuntimeError"; OS "RuntimeError"] /\
+  c_heap s' = c_heap s /\
+  let s'' := step AsWritten 1 s' OComplete in
+  chan_val (c_heap s'') 1 PIn "a" = Some 9%Z /\ chan_val (c_heap s'') 1 POut "y" = Some 12%Z /\
+  n_running (nd (c_heap s'') 1) = false /\ n_failed (nd (c_heap s'') 1) = true.
 Proof. vm_compute. repeat split; reflexivity. Qed.
